@@ -442,3 +442,31 @@ package anchoring
 //@ wire FunctionDefinition
 //@   property C01 C20
 //@   json Function=function Params=params
+
+// ---- registered names (what a request must say to select this object; what error messages list)
+//@ func (*Anchoring).Identifier
+//@   property C19 C20
+//@   nopanic
+//@   ensures [name] result == "anchoring"
+
+// ---- registered names (what a request must say to select this object; what error messages list)
+//@ func (*IdealReferenceAlternativeEvaluator).Identifier
+//@   property C19 C20
+//@   nopanic
+//@   ensures [name] result == "ideal"
+//@ func (*NadirReferenceAlternativeEvaluator).Identifier
+//@   property C19 C20
+//@   nopanic
+//@   ensures [name] result == "nadir"
+
+// ---- registered names (what a request must say to select this object; what error messages list)
+//@ func (*InlineAnchoringApplier).Identifier
+//@   property C19 C20
+//@   nopanic
+//@   ensures [name] result == "inline"
+
+// ---- registered names (what a request must say to select this object; what error messages list)
+//@ func (*NewCriterionAnchoringApplier).Identifier
+//@   property C07 C19 C20
+//@   nopanic
+//@   ensures [name] result == "newCriterion"
